@@ -11,9 +11,11 @@ BINS = ["c11"]
 
 TRUSTED = [
     "Coq 8.16.1 kernel (coqc; vm_compute used to run the model; no native_compute)",
-    "hand-written models coq/Query/Expr.v (ExpressionPredicate::eval_expr) and coq/Query/Stream.v (Filter, Limit, Skip, LimitSkip, "
-    "Distinct, Union, Simple/HashAggregate count, clause wiring of gql_translator/cypher_translator/planner::plan_filter), tied to the code by the differential run of this check",
-    "harness/src/bin/c11.rs (mock child operator, generators, query text printers, oracles, printing of observations as Coq terms), lib/gv.py",
+    "hand-written models coq/Query/Expr.v (ExpressionPredicate::eval_expr), coq/Query/Stream.v (Filter, Limit, Skip, LimitSkip, "
+    "Distinct, Union, Simple/HashAggregate count, clause wiring of gql_translator/cypher_translator/planner::plan_filter), coq/Query/StreamAgg.v "
+    "(sum/avg/min/max/first/last/collect, typed result vectors, plan_aggregate's result types) and coq/Query/StreamSort.v (sort.rs comparator, stable sort, batches), "
+    "tied to the code by the differential run of this check",
+    "harness/src/bin/c11.rs (mock child operator, generators, query text printers for GQL/Cypher/Gremlin/GraphQL, oracles, printing of observations as Coq terms), lib/gv.py",
     "binary64 comparison / epsilon-equality / i64->f64 conversion are defined on bit patterns in Expr.v and validated against Rust by the eval cases; float arithmetic is uninterpreted (theorems hold for every table) and never generated",
 ]
 
@@ -55,9 +57,11 @@ def run(tier, seed, replay_file=None):
     chk.coverage["rule"] = (
         "operator level: generated chunk lists (0..5 chunks of 0..8 rows, or 1..4 chunks around 2047/2048/2049/4095/4096/4097/5000 rows, "
         "each with none/partial/empty/full selection vector) through the real Filter/Limit/Skip/Skip;Limit/LimitSkip/Distinct/Union/"
-        "Simple+HashAggregate over a mock child, and ExpressionPredicate::eval_at on generated expressions (comparisons, checked "
+        "Simple+HashAggregate (count, sum, avg, min, max, first, last, collect; Any or planner-typed result vectors; i64 extremes)/Sort (1..3 keys, "
+        "ASC/DESC, NULLS FIRST/LAST, ties, one orderable class per key column) over a mock child, and ExpressionPredicate::eval_at on generated expressions (comparisons, checked "
         "arithmetic with extreme operands, AND/OR/XOR/NOT, IN, IS [NOT] NULL, string operators, missing and NULL properties); engine level: "
-        "generated graphs of 0..14 labelled nodes and one 4100-node table through session.execute / execute_cypher. "
+        "generated graphs of 0..14 labelled nodes and one 4100-node table through session.execute / execute_cypher / execute_gremlin / execute_graphql "
+        "(partition, stacked filters, windows with and without ORDER BY, count, DISTINCT / dedup, UNION ALL, aggregates, two-key ORDER BY). "
         "non-trivial = the predicate is unknown on at least one row, or the skip/limit window crosses a chunk boundary, or "
         "(distinct/group) duplicates across several chunks; distinct = distinct (kind, input)")
     chk.coverage["samples"] = [{"kind": c["k"], "input": c["in"][:300], "impl": c["impl"][:300]} for c in cases[:3] + cases[len(cases) // 2:len(cases) // 2 + 3]]
@@ -65,7 +69,9 @@ def run(tier, seed, replay_file=None):
     chk.coverage["harness_wall_s"] = round(dt, 1)
     chk.assumptions = [
         "output schemas passed to Limit/Skip/Distinct have one generic (Any) column per input column (what the planner passes); other schemas are outside the model",
-        "ORDER BY is modelled only for distinct Int64 keys, ascending (sort.rs itself is not modelled)",
+        "the Sort model (stable insertion sort) stands for slice::sort_by only where the comparator is a total preorder on the rows (evaluated per case: cmp_consistent); key columns of mixed types / NaN are outside the model and not generated",
+        "aggregate inputs are inside the modelled domain (no Float64 and no numeric-looking String in SUM/AVG columns; AVG partial sums within 2^53); engine cases outside it are run for the oracle only",
+        "Gremlin and GraphQL plans are compared through the Cypher wiring of the model (Sort, then Skip, then Limit); Gremlin order() is used with a single by() (every further by() replaces the key in the translator)",
         "engine level uses auto-commit sessions, labelled scans and no property index (C01's epoch defect, C10's index path are not on the path)",
         "Debug text of values inside list group/distinct keys is modelled for Null/Bool/Int64/plain-ASCII strings only",
     ]
